@@ -59,7 +59,7 @@ def generate(rng, run, tier):
     plan = gen_stream_plan(rng, integration == "rdflib")
     plan["integration"] = integration
     plan["consumer"] = rng.choice(["flat", "flat", "grouped", "to_graph", "plugin"])
-    plan["frontend"] = rng.choice(["bytesio", "buffered", "raw", "seekable_buffered", "gzip"])
+    plan["frontend"] = rng.choice(["bytesio", "buffered", "raw", "seekable_buffered", "gzip", "duck", "rwpair"])
     return plan
 
 
